@@ -80,6 +80,10 @@ def gen_program(rng, kind, nthreads, ncalls):
     cfg = dict(kind=kind, cap=cap, ts=1, mlf=rng.choice([50, 100, 400]), ttl=rng.choice([5, 50]), tick=2, rnum=1, rsh=1,
                fl=rng.choice([0, 0, 1]), keys=keys)
     pre = [gen_call(rng, kind, keys, "ins") for _ in range(rng.randint(0, cap + 1))]
+    if cap and rng.random() < 0.5:
+        # a full cache: the interesting interleavings are those of evicting inserts with everything else
+        d = rng.choice([5, 50]) if kind == "tlru" else 0
+        pre = ["ins %d %d 3 %d" % (k, rng.randint(1, 9), d) for k in rng.sample(range(1, keys + 1), cap)]
     if kind in vlib.TTL_KINDS and rng.random() < 0.4:
         # some entries are already expired (and not yet removed) when the threads start
         short = 2
@@ -89,7 +93,10 @@ def gen_program(rng, kind, nthreads, ncalls):
             pre.append("tick %d" % rng.choice([4 * short - 1, 4 * short, 4 * short + 1]))
         else:
             pre.append("tick %d" % rng.choice([4 * cfg["ttl"] - 1, 4 * cfg["ttl"], 4 * cfg["ttl"] + 1]))
-    thr = [[gen_call(rng, kind, keys) for _ in range(ncalls)] for _t in range(nthreads)]
+    def pick_op():
+        r = rng.random()
+        return "ins" if r < 0.3 else ("era" if r < 0.45 else None)
+    thr = [[gen_call(rng, kind, keys, pick_op()) for _ in range(ncalls)] for _t in range(nthreads)]
     post = []
     if kind in vlib.TTL_KINDS:
         post = ["tick 19", "obs", "tick 1", "obs", "tick 179", "obs", "tick 1", "obs"]
@@ -357,7 +364,7 @@ def check_c06(tier):
         infra = mc["infra"]
 
     # 2. deterministic replay of schedules on real threads
-    nprog = 260 if tier == "quick" else 4000
+    nprog = 400 if tier == "quick" else 6000
     cases = []
     for i in range(nprog):
         kind = KINDS[i % len(KINDS)]
